@@ -803,7 +803,13 @@ func (e *ConditionalExpr) Value(ctx *hcl.EvalContext) (cty.Value, hcl.Diagnostic
 			Expression:  e.Condition,
 			EvalContext: ctx,
 		})
-		return cty.UnknownVal(resultType), diags
+		// The placeholder still has the result type, which can describe
+		// the marked results (object attribute names, for example), so it
+		// carries their marks like every other result of this expression.
+		_, condMarks := condResult.Unmark()
+		_, trueMarks := trueResult.Unmark()
+		_, falseMarks := falseResult.Unmark()
+		return cty.UnknownVal(resultType).WithMarks(condMarks, trueMarks, falseMarks), diags
 	}
 
 	// Now that we have all three values, collect all the marks for the result.
@@ -909,7 +915,7 @@ func (e *ConditionalExpr) Value(ctx *hcl.EvalContext) (cty.Value, hcl.Diagnostic
 			Expression:  e.Condition,
 			EvalContext: ctx,
 		})
-		return cty.UnknownVal(resultType), diags
+		return cty.UnknownVal(resultType).WithMarks(resMarks...), diags
 	}
 
 	if condResult.True() {
